@@ -317,20 +317,20 @@ def _check(pid, tier, seed, prop, scratch, t0):
                 st = None
         if st:
             merged["cases"] += st.get("cases", 0)
-            merged["hashes"].update(st.get("nontrivial_hashes", []))
-            for k, v in st.get("classes", {}).items():
+            merged["hashes"].update(st.get("nontrivial_hashes") or [])
+            for k, v in (st.get("classes") or {}).items():
                 merged["classes"][k] = merged["classes"].get(k, 0) + v
             if len(merged["samples"]) < 24:
                 have = {}
                 for s in merged["samples"]:
                     have[s["class"]] = have.get(s["class"], 0) + 1
-                for s in st.get("samples", []):
+                for s in (st.get("samples") or []):
                     if have.get(s["class"], 0) < 2 and len(merged["samples"]) < 24:
                         merged["samples"].append(s)
                         have[s["class"]] = have.get(s["class"], 0) + 1
-            for k, v in st.get("excluded_known", {}).items():
+            for k, v in (st.get("excluded_known") or {}).items():
                 merged["excluded"][k] = merged["excluded"].get(k, 0) + v
-            for k, v in st.get("extra", {}).items():
+            for k, v in (st.get("extra") or {}).items():
                 if isinstance(v, (int, float)) and isinstance(merged["extra"].get(k, 0), (int, float)):
                     merged["extra"][k] = merged["extra"].get(k, 0) + v
                 else:
